@@ -520,3 +520,79 @@ func (s *explicitStrat) next(run []int) (int, int64) {
 	return run[0], infQuantum
 }
 func (s *explicitStrat) ran(int, int64) {}
+
+// StateFingerprint digests the process-wide state requests could write to:
+// the registries in main.go and every package-level variable of the repo's
+// packages (registered by the instrumenter). Read-only, reflective.
+func (w *World) StateFingerprint() string {
+	var parts []string
+	roots := w.env.Roots()
+	var names []string
+	for k := range roots {
+		names = append(names, k)
+	}
+	sort.Strings(names)
+	for _, k := range names {
+		parts = append(parts, k+"="+Digest(Deep(roots[k])))
+	}
+	globals := simrt.Globals()
+	var pkgs []string
+	for p := range globals {
+		pkgs = append(pkgs, p)
+	}
+	sort.Strings(pkgs)
+	for _, p := range pkgs {
+		var vs []string
+		for v := range globals[p] {
+			vs = append(vs, v)
+		}
+		sort.Strings(vs)
+		for _, v := range vs {
+			parts = append(parts, p+"."+v+"="+Digest(Deep(globals[p][v])))
+		}
+	}
+	return fmt.Sprint(parts)
+}
+
+// fingerprintDiff names the roots whose digest differs.
+func fingerprintDiff(a, b string) string {
+	as := splitParts(a)
+	bs := splitParts(b)
+	var out []string
+	for i := range as {
+		if i < len(bs) && as[i] != bs[i] {
+			n := as[i]
+			if k := indexByte(n, '='); k > 0 {
+				n = n[:k]
+			}
+			out = append(out, n)
+		}
+	}
+	return fmt.Sprint(out)
+}
+
+func splitParts(s string) []string {
+	if len(s) >= 2 {
+		s = s[1 : len(s)-1]
+	}
+	var out []string
+	cur := ""
+	for _, f := range []byte(s) {
+		if f == ' ' {
+			out = append(out, cur)
+			cur = ""
+		} else {
+			cur += string(f)
+		}
+	}
+	return append(out, cur)
+}
+
+func indexByte(s string, c byte) int {
+	for i := 0; i < len(s); i++ {
+		if s[i] == c {
+			return i
+		}
+	}
+	return -1
+}
